@@ -264,16 +264,36 @@ def AllExecAt (script : List (List Ans)) (t : Nat) : Prop :=
 instance (script : List (List Ans)) (t : Nat) : Decidable (AllExecAt script t) := by
   unfold AllExecAt; split <;> infer_instance
 
-/-- PWatch: the session is closed as executed at tick `t` only if every member is reported executed at that tick
-    (so a member that is still pending, or whose lookup fails, is never dropped), and it is not kept open past a tick
-    at which all members are executed -/
+/-- member `j` was reported executed at some tick before `t` (the destination never un-executes a proposal) -/
+def seenExecBefore (script : List (List Ans)) (t j : Nat) : Bool :=
+  (script.take t).any fun v => v[j]? == some Ans.exec
+
+/-- closing at tick `t` is justified: every member is reported executed at `t`, or was at an earlier tick -/
+def ClosedOk (script : List (List Ans)) (t : Nat) : Prop :=
+  match script[t]? with
+  | some v => ∀ j, j < v.length → (v[j]? = some Ans.exec ∨ seenExecBefore script t j = true)
+  | none => False
+
+instance (script : List (List Ans)) (t : Nat) : Decidable (ClosedOk script t) := by
+  unfold ClosedOk; split <;> infer_instance
+
+/-- PWatch: the session is closed as executed at tick `t` only if every member has been reported executed by then
+    (so a member that is still pending, or whose lookups have only failed, is never dropped), and it is not kept open
+    past a tick at which all members are reported executed -/
 def PWatch (script : List (List Ans)) (closed : Option Nat) : Prop :=
   match closed with
-  | some t => AllExecAt script t ∧ ∀ t' < t, ¬ AllExecAt script t'
+  | some t => ClosedOk script t ∧ ∀ t' < t, ¬ AllExecAt script t'
   | none   => ∀ t' < script.length, ¬ AllExecAt script t'
 
 instance (script : List (List Ans)) (closed : Option Nat) : Decidable (PWatch script closed) := by
   unfold PWatch; split <;> infer_instance
+
+/-- ticks that happen BEFORE the signature of a session arrives do not change what is submitted: if the session was
+    not closed as executed by then, the submission is exactly the signed batch (the batch is never edited) -/
+def submitAfterTicks (script : List (List Ans)) (signed : List Nat) : List (List Nat) :=
+  match watch script with
+  | some _ => []
+  | none   => submitted signed
 
 /-! ### histories -/
 
@@ -301,6 +321,7 @@ def runHist (exec : Delivery → Out) : List Nat → List Op → List (List Nat 
 inductive BOp
   | deliver (ns : List Nat) (faults : List Bool)
   | outcome (ok : Bool) (ns : List Nat) (faults : List Bool)   -- storeProposalsStatus(executed | failed)
+  | timeout (ns : List Nat)            -- a session holding `ns` hits its signing time-out: nothing is recorded
 deriving Repr
 
 /-- per delivery: the status map before it, the fault stream, the delivery, the outcome; and the final map -/
@@ -312,5 +333,6 @@ def runBtc (res : Nat → Nat) : List (Nat × Status) → List BOp → List (Sto
     ((⟨m, f⟩, ns, o) :: l, mf)
   | m, .outcome ok ns f :: r =>
     runBtc res (storeStatus ⟨m, f⟩ ns (if ok then .executed else .failed)).m r
+  | m, .timeout _ :: r => runBtc res m r
 
 end Sygma.C03
